@@ -402,7 +402,7 @@ def r3_row_ids(run, w):
                 "ids; both sides use the same per-table map", floor=9)
   names = w.action_types()
   # --- adds
-  fn = w.fn("useractions.UserActions.doBulkAddOrReplace")
+  fn = H.inlined_fn(w, "useractions.UserActions.doBulkAddOrReplace")
   cfg = fn.cfg
   du = DefUse(fn)
   ps = fn.fi.params()
@@ -465,7 +465,7 @@ def r3_row_ids(run, w):
   # --- updates and removes
   for q, kind in (("useractions.UserActions.doBulkUpdateRecord", "BulkUpdateRecord"),
                   ("useractions.UserActions.doBulkRemoveRecord", "BulkRemoveRecord")):
-    fn = w.fn(q)
+    fn = H.inlined_fn(w, q)
     cfg = fn.cfg
     du = DefUse(fn)
     rd = H.ReachDefs(fn, du)
